@@ -559,10 +559,14 @@ def opNeedsRelink (j : Lean.Json) : Except String Lean.Json := do
 
 /-! ### staging: the names under which contents and listings are filed -/
 
+/-- the content in the pieces a file is read in (`chunk_size=2**20` of `file_md5`) -/
+partial def readChunks (n : Nat) (data : List UInt8) : List (List UInt8) :=
+  if data.isEmpty then [] else data.take n :: readChunks n (data.drop n)
+
 def fileName (algo : String) (data : List UInt8) : String :=
   if algo = "md5-dos2unix" then
-    let isText := if data.isEmpty then false else Hash.isTextBlock (data.take Hash.CHUNK)
-    md5Of (if isText then Hash.dos2unix data else data)
+    -- the legacy stream decides text / binary for every chunk it reads (`Hash.readDos2Unix`)
+    md5Of (Hash.runStream "md5-dos2unix" (readChunks (2 ^ 20) data)).fed
   else md5Of data
 
 /-- {"op":"names","algo":..,"files":[hex..],"trees":[[[key parts],fileIndex]..]]} -/
